@@ -143,7 +143,12 @@ def gen_case(r):
             after.append(["Crash", r.choice(all_svcs)])
         else:
             after.append(["Sig", r.choice(["INT", "TERM"])])
-    return {"cli": cli, "tree": tree, "after": after, "ending": ending, "timeout": timeout, "fault": fault}
+    raisers = []
+    if ids["cb"] and r.random() < 0.25:
+        # some teardown callbacks raise when they are called: the others still run, and what they raised comes out
+        raisers = sorted(r.sample(range(ids["cb"]), min(ids["cb"], r.choice([1, 1, 2]))))
+    return {"cli": cli, "tree": tree, "after": after, "ending": ending, "timeout": timeout, "fault": fault,
+            "raisers": raisers}
 
 
 # ------------------------------------------------------------------ observations -> model terms
@@ -199,6 +204,11 @@ def outcome_term(o):
             return f"(OExit ({e}))"
         return "(OExit (-99999))"
     x = o["raised"]
+    lv = leaves(x)
+    tds = [y["td"] for y in lv if isinstance(y, dict) and "td" in y]
+    if tds:
+        cr = [y["crash"] for y in lv if isinstance(y, dict) and "crash" in y]
+        return f"(ORaisedTd {clist(f'{i}%nat' for i in tds)} {('(Some %d%%nat)' % cr[0]) if cr else 'None'})"
     if "crash" in x:
         return f"(ORaised (XCrash {x['crash']}))"
     if "runerror" in x:
@@ -234,7 +244,8 @@ def split(r):
 def case_term(r):
     hist, obs, alive = split(r)
     ot = clist((f"(Td {o[1]} {arg_term(o[2])})" if o[0] == "Td" else f"(SvcCancelled {o[1]})") for o in obs)
-    return (f"(RC {cbool(r['cli'])} {clist(ev_term(o) for o in alive)} {clist(ev_term(o) for o in hist)} {ot} "
+    return (f"(RC {cbool(r['cli'])} {clist(ev_term(o) for o in alive)} {clist(f"{i}%nat" for i in (r.get('raisers') or []))} "
+            f"{clist(ev_term(o) for o in hist)} {ot} "
             f"{outcome_term(r['outcome'])})")
 
 
@@ -284,7 +295,7 @@ def oracle(r):
         # a callback that hands back an awaitable has finished only when that has been awaited, which happens
         # before the next callback is called (under the cancellation a crash brings, it is cut short instead)
         for i, o in enumerate(log):
-            if o[0] == "Td" and o[1] % 3 == 2:
+            if o[0] == "Td" and o[1] % 3 == 2 and o[1] not in (r.get("raisers") or []):
                 nxt = log[i + 1] if i + 1 < len(log) else None
                 if nxt != ["TdDone", o[1]]:
                     bad.append(("C15:awaitable-not-awaited", f"teardown callback {o[1]} returned an awaitable that was not "
@@ -300,6 +311,14 @@ def oracle(r):
     expect_cancelled = [s for s in svcs if s not in crashes]
     if sorted(cancelled) != sorted(expect_cancelled):
         bad.append(("C15:service-tasks", f"service tasks {svcs} (crashed {crashes}) but cancelled at teardown: {cancelled}"))
+    raised_ids = [i for i in tds if i in set(r.get("raisers") or [])]
+    if raised_ids:
+        # teardown callbacks raised: run_application raises a group holding exactly what they raised, in the
+        # order in which they ran, whatever the status would have been
+        got = [x["td"] for x in leaves(out["raised"]) if isinstance(x, dict) and "td" in x] if "raised" in out else None
+        if got != raised_ids:
+            bad.append(("C15:teardown-errors-lost", f"teardown callbacks {raised_ids} raised; run_application ended with {out}"))
+        return bad
     if crashes:
         if started and not ("raised" in out and {"crash": crashes[0]} in leaves(out["raised"])):
             bad.append(("C15:crash-outcome", f"service task {crashes[0]} crashed after startup; run_application ended with {out}"))
@@ -368,7 +387,7 @@ def collect(ck, n):
     again = [i for i, r in enumerate(out) if "crash" not in r and r.get("fault") == "Hang"
              and not any(o[0] in ("Hang", "Fail", "Sig", "Crash") for o in r["log"])]
     if again:
-        redo = [dict({k: out[i][k] for k in ("backend", "cli", "tree", "after", "ending")}, timeout=1.0) for i in again]
+        redo = [dict({k: out[i].get(k) for k in ("backend", "cli", "tree", "after", "ending", "raisers")}, timeout=1.0) for i in again]
         rr = ck.run_impl("impl_run.py", [{"cases": redo}], timeout=600)[0]
         for i, r2 in zip(again, rr.get("results", [])):
             r2["timeout"], r2["fault"] = 1.0, "Hang"
@@ -407,7 +426,7 @@ def check_fixed(ck):
 
 
 def replay_obj(r):
-    return {k: r.get(k) for k in ("backend", "cli", "tree", "after", "ending", "timeout", "log", "outcome")}
+    return {k: r.get(k) for k in ("backend", "cli", "tree", "after", "ending", "raisers", "timeout", "log", "outcome")}
 
 
 def run(ck: Check):
@@ -438,6 +457,7 @@ def run(ck: Check):
     nfixed = check_fixed(ck)
     dist = {"cli": 0, "outcomes": {}, "startup_fault": {}, "run_result_kinds": {}, "callbacks": 0, "service_tasks": 0,
             "components": 0, "signal_after_startup_cli": 0}
+    dist["runs_with_raising_callbacks"] = sum(1 for r in results if any(o[0] == "Td" and o[1] in (r.get("raisers") or []) for o in r["log"]))
     for r in results:
         dist["cli"] += r["cli"]
         o = r["outcome"]
@@ -484,7 +504,7 @@ def run(ck: Check):
 
 def replay(ck: Check, obj) -> int:
     rp = obj.get("replay") or obj["no_longer_checks"][0]["detail"]
-    case = {k: rp[k] for k in ("backend", "cli", "tree", "after", "ending")}
+    case = {k: rp.get(k) for k in ("backend", "cli", "tree", "after", "ending", "raisers")}
     case["timeout"] = rp.get("timeout", 30)
     r = ck.run_impl("impl_run.py", [{"cases": [case]}])[0]["results"][0]
     if "crash" in r:
